@@ -175,7 +175,7 @@ def ftypeOf (aiw : Bool) : Expr → Except Err Ftype
           if s.isEmpty then .ok .elementWise
           else if s.length == 1 then .ok (s.headD .elementWise)
           else if s.contains .window then .ok .window
-          else .error .type   -- intended FunctionTypeError; the message is built with `", ".join(val_ftypes)` on enum members, which raises TypeError
+          else .error .functionType   -- (before the repair of D62 building the message raised TypeError)
   | .cast e _ => ftypeOf aiw e
 
 def ftypeOfList (aiw : Bool) : List Expr → Except Err (List Ftype)
